@@ -569,6 +569,22 @@ def join_case(ctx, B, ml, fa, fb, args, variants, sample=False, prebuilt=None, d
         sn = float(np.linalg.norm(np.cross(q - p, v1)) / (bl * np.linalg.norm(v1))) if bl > 0 else 1.0
         if sn > 1e-8 or np.dot(q - p, v1) <= 0:
             ctx.violation("C12:join-wrong-bond-direction", f"new bond not along A's attachment vector (sin = {sn:.3g}, dot = {float(np.dot(q - p, v1)):.3g})", tag)
+        # B must face A: the image of B's own attachment point lies on the bond axis, behind B's bonded atom
+        # (theorem join_fragment_faces).  Its image is recovered from the rigid motion of B's remaining atoms when these fix it.
+        if d_ok and v_ok and len(keepB) >= 3:
+            P0, P1 = cbm[keepB], gotB
+            c0, c1 = P0.mean(axis=0), P1.mean(axis=0)
+            if np.linalg.svd(P0 - c0, compute_uv=False)[1] > 0.3:          # not collinear: the rotation is determined
+                Rfit, rfit = G.kabsch(P0 - c0, P1 - c1)
+                if rfit < 1e-7:
+                    img = (cbm[i2] - c0) @ Rfit + c1
+                    w = img - q
+                    cs = float(np.dot(w, -(q - p)) / (np.linalg.norm(w) * np.linalg.norm(q - p))) if np.linalg.norm(w) > 0 and bl > 0 else -1.0
+                    if cs < 1 - 1e-9:
+                        ctx.violation("C12:join-second-fragment-not-facing",
+                                      f"B's own attachment direction is not turned onto the new bond (cos = {cs:.9f} instead of 1): "
+                                      "B is joined in a wrong orientation", tag)
+                    ctx.count("join.facing-checked")
         # ---------- geometry: exact spec predicates in Lean on the returned floats ----------
         B.add(f"spec {nA} {ftoks(ca)} {nB} {ftoks(cbm)} {i1} {i2} {n1} {n2} {ftoks(coords)} {fbits(d)} 1/100000000",
               expect_flags(ctx, "join", tag, SPEC_KINDS))
